@@ -127,7 +127,9 @@ def run(rep, tier):
     C03.audit_rules_c03(Renamed(rep, {'R03.13': 'R14.10'}), fb)
     C13.stable_restored(rep, fb, 'R14.11')
     from . import C16
-    C16.nil_is_null(rep, facts.FactBase(['src/uscxml/plugins/datamodel/lua/LuaDataModel.cpp']), 'R14.12')
+    fbl14 = facts.FactBase(['src/uscxml/plugins/datamodel/lua/LuaDataModel.cpp'])
+    C16.nil_is_null(rep, fbl14, 'R14.12')
+    C16.bare_words(rep, fbl14, 'R14.12')
     # ---- R14.13 the session identity is part of the state
     rep.rule('R14.13', 'a resumed session is the session that was saved: serialize() writes the session id, deserialize() adopts it before init() hands it to the data model and the i/o processors (the origin of queued events, a stored _sessionid or location would name a session that no longer exists)')
     from .. import cfg as cfgm13
